@@ -53,8 +53,10 @@ def event_bytes(e):
     return http(body, b"application/hap+json", kind=b"EVENT/1.0")
 
 
-def resp_bytes(p):
-    return http(str(p).encode(), b"application/hap+json")
+def resp_bytes(p, pad=0):
+    """the response carrying payload p; `pad` bytes of an extra header make it span several encrypted blocks"""
+    ctype = b"application/hap+json" + (b"\r\nX-Pad: " + b"p" * pad if pad else b"")
+    return http(str(p).encode(), ctype)
 
 
 async def scenario(loop, variant, limit, events, seed):
@@ -68,6 +70,7 @@ async def scenario(loop, variant, limit, events, seed):
     tasks = {}
     harness_cancelled = set()
     pending_rest = {}
+    prefed = {}
     if variant == "plain":
         owner = Owner()
         bufs = {}
@@ -113,7 +116,7 @@ async def scenario(loop, variant, limit, events, seed):
         net.connect_outcomes = ["refused"] * 100000
         n_sent = n_ev = n_lost = 0
         lost_log = [x for x in net.log if x[0] == "lost"]
-        for ev in events:
+        for ei, ev in enumerate(events):
             f = ev.split(":")
             k = f[0]
             t = cur()
@@ -134,13 +137,26 @@ async def scenario(loop, variant, limit, events, seed):
                     done.append((rid, out, nowu()))
                 tasks[rid] = asyncio.ensure_future(caller())
             elif k in ("r", "e"):
-                if t is not None and not pending_rest:
-                    data = frame(t, resp_bytes(int(f[1])) if k == "r" else event_bytes(int(f[1])))
+                if t is not None and t in prefed:
+                    # the head of this message already travelled with the previous one: the rest arrives now
+                    t.feed(prefed.pop(t))
+                elif t is not None and not pending_rest:
+                    pad = rnd.choice([0, 0, 0, 0, 1100, 2300]) if k == "r" else 0
+                    data = frame(t, resp_bytes(int(f[1]), pad) if k == "r" else event_bytes(int(f[1])))
+                    nxt = events[ei + 1].split(":") if ei + 1 < len(events) else [""]
+                    tail = b""
+                    if nxt[0] in ("r", "e") and rnd.random() < 0.5:
+                        # TCP coalesces: the read that completes this message also carries the first bytes (at least the
+                        # two length bytes of an encrypted block, sometimes far more) of the message the accessory sends next
+                        d2 = frame(t, resp_bytes(int(nxt[1])) if nxt[0] == "r" else event_bytes(int(nxt[1])))
+                        c2 = rnd.choice([2, 3, 17, len(d2) // 2, len(d2) - 1])
+                        tail, prefed[t] = d2[:c2], d2[c2:]
                     cuts = sorted(rnd.sample(range(1, len(data)), min(rnd.choice([0, 0, 1, 2, 5]), len(data) - 1)))
                     prev = 0
-                    for c in cuts + [len(data)]:
+                    for c in cuts:
                         t.feed(data[prev:c])
                         prev = c
+                    t.feed(data[prev:] + tail)
             elif k in ("hr", "he"):
                 if t is not None and not pending_rest:
                     data = frame(t, resp_bytes(int(f[1])) if k == "hr" else event_bytes(int(f[1])))
@@ -160,6 +176,10 @@ async def scenario(loop, variant, limit, events, seed):
             elif k == "pc":
                 if t is not None:
                     t.peer_close()
+            elif k == "pr":
+                # abortive loss (TCP RST / network error): connection_lost() gets the OS error, no EOF before it
+                if t is not None:
+                    t.peer_reset()
             elif k == "lc":
                 # the connection is dropped locally (HomeKitConnection.close()): same abandonment as a peer close
                 if conn.is_connected:
@@ -284,15 +304,15 @@ def oracle(events, lines, limit):
 
 def model_line(limit, events):
     # a local close is the model's abandonment event too
-    return f"rq.run {limit} " + " ".join("pc" if e == "lc" else e for e in events)
+    return f"rq.run {limit} " + " ".join("pc" if e in ("lc", "pr") else e for e in events)
 
 
 def gen_exhaustive(depth, rng, sample=None):
-    alpha = ["q", "r", "e:7", "hr", "he:9", "rest", "c", f"a:{12 * UNIT}", f"a:{31 * UNIT}", "pc", "lc", "R"]
+    alpha = ["q", "r", "e:7", "hr", "he:9", "rest", "c", f"a:{12 * UNIT}", f"a:{31 * UNIT}", "pc", "lc", "pr", "R"]
     seqs = []
     for d in range(1, depth + 1):
         for seq in itertools.product(alpha, repeat=d):
-            if seq[0] not in ("q", "r", "e:7", "pc", "lc", "hr", "he:9"):
+            if seq[0] not in ("q", "r", "e:7", "pc", "lc", "pr", "hr", "he:9"):
                 continue
             if sum(1 for x in seq if x == "q") > 3:
                 continue
@@ -345,8 +365,10 @@ def gen_random(rng):
             evs.append(f"c:{rng.randrange(1, rid + 1)}")
         elif r < 0.9:
             evs.append("a:%d" % rng.choice([UNIT, 12 * UNIT, 29 * UNIT, 31 * UNIT, 18 * UNIT + 2]))
-        elif r < 0.93:
+        elif r < 0.92:
             evs.append("pc")
+        elif r < 0.94:
+            evs.append("pr")
         elif r < 0.96:
             evs.append("lc")
         else:
